@@ -61,6 +61,7 @@ def run(idx: ProgramIndex, rep: Report, tier: str):
     rep.rule("C14-1", "KL(q || p): variational distribution first, prior second, at every KL site")
     rep.rule("C14-2", "wrapper strategies sum the base KL over their configured task/latent dimension")
     rep.rule("C14-3", "every __call__ override keeps the training-mode cache reset")
+    rep.rule("C14-5", "no in-place aliasing hazard in the variational strategies and distributions (storage/version domain)")
     rep.rule("C14-4", "prior=True short-circuits to the model prior")
     n = 0
     for fi in idx.all_functions():
@@ -122,3 +123,9 @@ def run(idx: ProgramIndex, rep: Report, tier: str):
             delegates = any(isinstance(c, ast.Call) and any(kw.arg == "prior" and src(kw.value) == "prior" for kw in c.keywords) for c in calls_in(call_fi.node))
             rep.add("C14-4", "%s:%s.__call__[prior]" % (cc.module.name, cc.qualname), call_fi.where, okp or delegates, "prior=True returns the model prior (or is forwarded to the wrapped strategy)" if okp or delegates else "the prior=True short-circuit is gone: prior-mode calls return q(f)", {})
     rep.floor("C14-3", "__call__ definitions", k, 4)
+
+    from .common_alias import aliasing_obligations
+    funcs = []
+    for c in idx.subclasses(vs) + idx.subclasses(idx.find_class("_VariationalDistribution")):
+        funcs += list(c.methods.values())
+    aliasing_obligations(idx, rep, "C14-5", funcs, 60, "variational strategy / distribution methods interpreted")
